@@ -18,7 +18,7 @@ func init() {
 			"post-processors in this family only observe (a substituting processor legitimately moves the init calls to the substitute: C03's territory)",
 			"n <= 3 (thorough: 4 over two edge kinds)",
 		},
-		Parts: []Part{{Name: "lifecycle", Run: c05Run, QuickS: 80, ThoroughS: 1200}},
+		Parts: []Part{{Name: "lifecycle", Run: c05Run, QuickS: 160, ThoroughS: 1500}},
 	})
 }
 
@@ -33,6 +33,7 @@ func c05Gen(c *core.Ctx) func(yield func(c05Case) bool) {
 		quickLazy := false // quick tier: deviations only with at most one lazy node
 		procNode := false
 		bystander := 0
+		var shortcut []int // nodes whose creation a processor short-cuts from before-instantiation
 		fam := func(n int, alphabet []int, orders [][]int, name string, bound int, obsList []int) {
 			allGraphs(n, alphabet, false, func(e [][]int) bool {
 				for lz := 0; lz < 1<<n; lz++ {
@@ -46,6 +47,9 @@ func c05Gen(c *core.Ctx) func(yield func(c05Case) bool) {
 					for _, obs := range obsList {
 						for _, base := range orders {
 							p := scen.GraphProg{N: n, Edges: e, Lazy: lazy, Obs: obs, Base: base, Config: true, Family: name, ProcNode: procNode, Bystander: bystander}
+							if shortcut != nil {
+								p.Wrap = shortcut
+							}
 							if bound > 0 {
 								p.Kinds = "P"
 							}
@@ -84,6 +88,20 @@ func c05Gen(c *core.Ctx) func(yield func(c05Case) bool) {
 		if !ok {
 			return
 		}
+		// a processor answers the component itself from before-instantiation for a subset of nodes
+		quickLazy = true
+		for m := 1; m < 8; m++ {
+			shortcut = []int{m & 1 * scen.WrapInstSelf, m >> 1 & 1 * scen.WrapInstSelf, m >> 2 & 1 * scen.WrapInstSelf}
+			obs := []int{1, 2}
+			if !c.Thorough() {
+				obs = []int{2}
+			}
+			fam(3, three, [][]int{{0, 1, 2}}, "n3-shortcut", 0, obs)
+			if !ok {
+				return
+			}
+		}
+		shortcut = nil
 		quickLazy = !c.Thorough()
 		fam(3, three, [][]int{{0, 1, 2}}, "n3-dev", 1, []int{1})
 		quickLazy = false
@@ -113,6 +131,15 @@ func lifecycleCheck(p *scen.GraphProg, log []string, nobs int, want []bool) stri
 	}
 	for i := 0; i < p.N; i++ {
 		nm := scen.Name(i, p.N)
+		if len(p.Wrap) > i && p.Wrap[i] == scen.WrapInstSelf && want[i] {
+			// creation short-cut by a processor: the container's contract is "only the
+			// after-initialization callbacks"; the property's part is that nothing happens twice
+			// and that whatever happens keeps the lifecycle order
+			if msg := shortcutCheck(nm, pos, nobs); msg != "" {
+				return msg
+			}
+			continue
+		}
 		var evs []string
 		for k := 0; k < nobs; k++ {
 			evs = append(evs, fmt.Sprintf("before:zz-proc%d:%s", k, nm))
@@ -154,6 +181,46 @@ func lifecycleCheck(p *scen.GraphProg, log []string, nobs int, want []bool) stri
 	return ""
 }
 
+func shortcutCheck(nm string, pos map[string][]int, nobs int) string {
+	rank := func(e string) int {
+		switch {
+		case strings.HasPrefix(e, "before:"):
+			return 0
+		case strings.HasPrefix(e, "aps:"):
+			return 1
+		case strings.HasPrefix(e, "init:"):
+			return 2
+		}
+		return 3
+	}
+	var evs []string
+	for k := 0; k < nobs; k++ {
+		evs = append(evs, fmt.Sprintf("before:zz-proc%d:%s", k, nm))
+	}
+	evs = append(evs, "aps:"+nm, "init:"+nm)
+	for k := 0; k < nobs; k++ {
+		evs = append(evs, fmt.Sprintf("after:zz-proc%d:%s", k, nm))
+	}
+	for _, e := range evs {
+		if len(pos[e]) > 1 {
+			return fmt.Sprintf("event %s occurred %d times for a component whose creation a processor short-cut, want at most once", e, len(pos[e]))
+		}
+	}
+	for _, a := range evs {
+		for _, b := range evs {
+			if len(pos[a]) == 1 && len(pos[b]) == 1 && rank(a) < rank(b) && pos[a][0] > pos[b][0] {
+				return fmt.Sprintf("lifecycle of %s out of order: %s after %s", nm, a, b)
+			}
+		}
+	}
+	for k := 0; k < nobs; k++ {
+		if e := fmt.Sprintf("after:zz-proc%d:%s", k, nm); len(pos[e]) != 1 {
+			return fmt.Sprintf("event %s occurred %d times for a short-cut component, want exactly once", e, len(pos[e]))
+		}
+	}
+	return ""
+}
+
 func reaches(p *scen.GraphProg, from, to int) bool {
 	seen := make([]bool, p.N)
 	st := []int{from}
@@ -177,7 +244,19 @@ func c05Run(c *core.Ctx) {
 	first := true
 	Cases(c, c05Gen(c), func(c *core.Ctx, cs c05Case) {
 		p := &cs.GraphProg
-		ref := refGraph(p)
+		sc := make([]bool, p.N)
+		q := *p // the reference sees a short-cut node as a node without injection points
+		q.Edges = make([][]int, p.N)
+		for i := range q.Edges {
+			q.Edges[i] = append([]int{}, p.Edges[i]...)
+			if len(p.Wrap) > i && p.Wrap[i] == scen.WrapInstSelf {
+				sc[i] = true
+				for j := range q.Edges[i] {
+					q.Edges[i][j] = scen.ENone
+				}
+			}
+		}
+		ref := refGraph(&q)
 		if p.ProcNode {
 			// the processor depends on node a: a (and what a needs) is created even when lazy
 			q := *p
@@ -214,7 +293,7 @@ func c05Run(c *core.Ctx) {
 			cc := cs
 			cc.Choices = ch.Choices()
 			key := func(kind string) string {
-				return "C05/" + kind + "/" + core.Hash(p.N, p.Edges, p.Base, p.Lazy, p.Obs, p.ProcNode, p.Bystander, cc.Choices)
+				return "C05/" + kind + "/" + core.Hash(p.N, p.Edges, p.Base, p.Lazy, p.Obs, p.ProcNode, p.Bystander, p.Wrap, cc.Choices)
 			}
 			if !o.OK() {
 				return
@@ -266,6 +345,9 @@ func c05Run(c *core.Ctx) {
 				if !ref.created[i] {
 					continue
 				}
+				if sc[i] {
+					continue
+				}
 				n := o.Nodes[i]
 				nm := scen.Name(i, p.N)
 				// populated (injection points and configuration) before before-initialization
@@ -281,7 +363,7 @@ func c05Run(c *core.Ctx) {
 				}
 				// dependencies that do not depend back are initialised first
 				for j := 0; j < p.N; j++ {
-					if j == i || p.Edges[i][j] == 0 || reaches(p, j, i) {
+					if j == i || p.Edges[i][j] == 0 || sc[j] || reaches(&q, j, i) {
 						continue
 					}
 					if !(pos["init:"+scen.Name(j, p.N)] < pos["init:"+nm]) {
@@ -290,7 +372,9 @@ func c05Run(c *core.Ctx) {
 					}
 				}
 			}
-			if bad := checkWiring(o, ref, false); len(bad) > 0 {
+			oq := *o
+			oq.Prog = &q
+			if bad := checkWiring(&oq, ref, false); len(bad) > 0 {
 				c.Report(key("wiring"), "wrong-wiring", bad[0], cc)
 				return
 			}
